@@ -32,7 +32,11 @@ SetT    == IF Level = "bytes"
            ELSE { <<kv("lab", "y")>>, <<kv("lab", "")>>, <<kv("flag", "T")>>, <<kv("date", "d2")>>, <<kv("lab", "x"), kv("date", "")>>,
                   <<kv("val", "y")>>, <<kv("lab", "y"), kv("val", "x")>>, <<kv("mech", "m2")>> }
                 \cup UNION { WithBad(<<kv("lab", "y"), kv("flag", "T")>>, k) : k \in BadKinds }
-CopyT   == { <<>>, <<kv("lab", "y")>>, <<kv("lab", "y"), kv("bad", "readonly")>>, <<kv("bad", "unknown"), kv("lab", "y")>> }
+                \* one attribute twice (the last entry counts), alone and in front of an entry that is refused
+                \cup { <<kv("lab", "y"), kv("lab", "x")>>, <<kv("lab", "y"), kv("lab", "x"), kv("bad", "readonly")>>,
+                       <<kv("flag", "T"), kv("lab", "y"), kv("flag", "F"), kv("bad", "unknown")>> }
+CopyT   == { <<>>, <<kv("lab", "y")>>, <<kv("lab", "y"), kv("bad", "readonly")>>, <<kv("bad", "unknown"), kv("lab", "y")>>,
+             <<kv("lab", "y"), kv("lab", "x"), kv("bad", "readonly")>> }
 
 \* a refused call needs no room: it is tried in every state
 MCreate(tok, private, t)   == "create" \in Acts /\ (Room \/ Bad(t)) /\ Create(NextId, tok, private, t, "create")
